@@ -966,66 +966,6 @@ Proof.
   pose proof (kids_ml_del_at w old i p Hne) as Hk. destruct (ml_del_at w old i) as [w1 ok]. exact Hk.
 Qed.
 
-(* ---- set item ---- *)
-Lemma step_setitem w ir i v k old :
-  norm_index i (length (kids w ir)) = Some k -> nth_error (kids w ir) k = Some old ->
-  mem v (kids w ir) && negb (v =? old) = false ->
-  step w (OModSetItem ir i v) =
-  flagged (with_kids (fst (ml_add_hook (fst (ml_remove_hook w ir old)) ir v)) ir
-             (set_at k v (kids (fst (ml_add_hook (fst (ml_remove_hook w ir old)) ir v)) ir)),
-           snd (ml_remove_hook w ir old) && snd (ml_add_hook (fst (ml_remove_hook w ir old)) ir v)).
-Proof.
-  intros H1 H2 H3. cbn [step]. rewrite H1, H2, H3.
-  destruct (ml_remove_hook w ir old) as [w1 ok1]. cbn [fst snd]. destruct (ml_add_hook w1 ir v) as [w2 ok2]. reflexivity.
-Qed.
-
-Lemma setitem_main w known ir v k old :
-  Forest w known -> CacheInv w -> is_k w ir KIR = true -> is_k w v KMod = true ->
-  nth_error (kids w ir) k = Some old -> (~ In v (kids w ir) \/ v = old) ->
-  let w1 := fst (ml_remove_hook w ir old) in
-  let w2 := fst (ml_add_hook w1 ir v) in
-  Forest (with_kids w2 ir (set_at k v (kids w ir))) known /\ CacheInv (with_kids w2 ir (set_at k v (kids w ir))) /\
-  snd (ml_remove_hook w ir old) = true /\ snd (ml_add_hook w1 ir v) = true /\ kids w2 ir = kids w ir.
-Proof.
-  intros F C G Gv Ho Hv w1 w2.
-  destruct (virtual_start w known ir F C) as [F0 C0].
-  assert (Hoin : In old (kids w ir)) by (eapply nth_error_In; exact Ho).
-  assert (Hho : has w old = true).
-  { apply (f_two_ended w known F) in Hoin. apply (f_kind w known F ir old Hoin). }
-  destruct (remove_hook_virtual w known ir (kids w ir) old F0 C0 G Hoin) as [F1 [C1 Hf1]]. fold w1 in F1, C1.
-  assert (G1 : is_k w1 ir KIR = true) by (unfold w1; rewrite is_k_remove_hook; assumption).
-  assert (Gv1 : is_k w1 v KMod = true) by (unfold w1; rewrite is_k_remove_hook; assumption).
-  assert (Hnd : NoDup (kids w ir)) by apply (f_nodup w known F).
-  assert (Hnv : ~ In v (remove_id old (kids w ir))).
-  { rewrite In_remove_id. intros [H1 H2]. destruct Hv as [Hv|Hv]; contradiction. }
-  destruct (add_hook_virtual w1 known ir (remove_id old (kids w ir)) v (set_at k v (kids w ir)) F1 C1 G1 Gv1 Hnv) as [F2 [C2 [Hf2 _]]].
-  - apply (NoDup_set_at (kids w ir) k v old Hnd Ho Hv).
-  - intro x. rewrite (In_set_at_nodup (kids w ir) k v old x Hnd Ho), In_remove_id. reflexivity.
-  - fold w2 in F2, C2. refine (conj F2 (conj C2 (conj Hf1 (conj Hf2 _)))).
-    unfold w2. rewrite kids_ml_add_hook; [reflexivity|].
-    intro E. change (par w1 v) with (par (with_kids w1 ir (remove_id old (kids w ir))) v) in E.
-    apply (f_two_ended _ known F1) in E. rewrite kids_with_kids_same in E. contradiction.
-Qed.
-
-Lemma good_setitem w known ir i v :
-  Forest w known -> CacheInv w -> op_okb w known (OModSetItem ir i v) = true -> Good w known (OModSetItem ir i v).
-Proof.
-  intros F C G. cbn [op_okb] in G. apply andb_true_iff in G. destruct G as [G1 G2].
-  destruct (norm_index i (length (kids w ir))) as [k|] eqn:En.
-  2:{ apply (good_err w known _ EIndex); [cbn [step]; rewrite En; reflexivity|discriminate|reflexivity|exact F|exact C]. }
-  destruct (nth_error (kids w ir) k) as [old|] eqn:Eo.
-  2:{ apply (good_err w known _ EImpossible); [cbn [step]; rewrite En, Eo; reflexivity|discriminate|reflexivity|exact F|exact C]. }
-  destruct (mem v (kids w ir) && negb (v =? old)) eqn:Ec.
-  { apply (good_err w known _ EImpossible); [cbn [step]; rewrite En, Eo, Ec; reflexivity|discriminate|reflexivity|exact F|exact C]. }
-  assert (Hv : ~ In v (kids w ir) \/ v = old).
-  { apply andb_false_iff in Ec. destruct Ec as [Ec|Ec].
-    - left. apply mem_false. exact Ec.
-    - right. apply negb_false_iff in Ec. apply Z.eqb_eq. exact Ec. }
-  destruct (setitem_main w known ir v k old F C G1 G2 Eo Hv) as [F2 [C2 [Hf1 [Hf2 Hk]]]].
-  pose proof (step_setitem w ir i v k old En Eo Ec) as Hs. rewrite Hk, Hf1, Hf2 in Hs. cbn [andb flagged] in Hs.
-  apply (good_ok w known _ _ Hs); assumption.
-Qed.
-
 (* ================================================================== *)
 (* loops                                                               *)
 (* ================================================================== *)
@@ -1243,44 +1183,186 @@ Proof.
     apply (good_ok w known _ _ Hs); assumption.
 Qed.
 
-(* ---- set slice ---- *)
-Lemma setslice_main w known ir pre vic post vs :
-  Forest w known -> CacheInv w -> is_k w ir KIR = true -> kids w ir = pre ++ vic ++ post ->
-  (forall v, In v vs -> is_k w v KMod = true) -> NoDup vs -> (forall v, In v vs -> ~ In v (pre ++ post)) ->
-  let w1 := fst (fold_ok (fun w v => ml_remove_hook w ir v) vic w) in
-  Forest (with_kids (fst (fold_ok (fun w v => ml_add_hook w ir v) vs w1)) ir (pre ++ vs ++ post)) known /\
-  CacheInv (with_kids (fst (fold_ok (fun w v => ml_add_hook w ir v) vs w1)) ir (pre ++ vs ++ post)) /\
-  snd (fold_ok (fun w v => ml_remove_hook w ir v) vic w) = true /\
-  snd (fold_ok (fun w v => ml_add_hook w ir v) vs w1) = true.
+(* ---- item and slice assignment (ml_assign) ---- *)
+
+Lemma dedup_In x l : In x (dedup l) <-> In x l.
 Proof.
-  intros F C G Hl Gv Hnd Hnin w1.
-  destruct (remove_slice w known ir pre vic post F C G Hl) as [F1 [C1 [Hf1 [Hk1 _]]]]. fold w1 in F1, C1, Hk1.
-  destruct (add_hooks_fold known ir vs w1 pre post F1 C1) as [F2 [C2 [Hf2 _]]].
-  - rewrite Hk1. exact G.
-  - intros v Hv. rewrite Hk1. apply Gv. exact Hv.
-  - exact Hnd.
-  - exact Hnin.
-  - auto.
+  induction l as [|a l IH]; [reflexivity|]. cbn [dedup]. destruct (mem a l) eqn:E.
+  - rewrite IH. cbn [In]. split; [tauto|]. intros [H|H]; [subst; apply mem_In; exact E|exact H].
+  - cbn [In]. rewrite IH. reflexivity.
 Qed.
+
+Lemma dedup_NoDup l : NoDup (dedup l).
+Proof.
+  induction l as [|a l IH]; [constructor|]. cbn [dedup]. destruct (mem a l) eqn:E; [exact IH|].
+  constructor; [|exact IH]. rewrite dedup_In. apply mem_false. exact E.
+Qed.
+
+Lemma dedup_nodup_id l : NoDup l -> dedup l = l.
+Proof.
+  induction l as [|a l IH]; intro H; [reflexivity|]. inversion H as [|a' l' Ha Hl]. subst.
+  cbn [dedup]. apply mem_false in Ha. rewrite Ha. f_equal. apply IH. exact Hl.
+Qed.
+
+Lemma In_filter_notmem x vs l : In x (filter (fun y => negb (mem y vs)) l) <-> In x l /\ ~ In x vs.
+Proof. rewrite filter_In, negb_true_iff, mem_false. reflexivity. Qed.
+
+Lemma mem_filter_notmem x vs l : mem x (filter (fun y => negb (mem y vs)) l) = mem x l && negb (mem x vs).
+Proof.
+  destruct (mem x l) eqn:E1; destruct (mem x vs) eqn:E2; cbn [andb negb].
+  - apply mem_false. rewrite In_filter_notmem. apply mem_In in E2. tauto.
+  - apply mem_In. rewrite In_filter_notmem. apply mem_In in E1. apply mem_false in E2. tauto.
+  - apply mem_false. rewrite In_filter_notmem. apply mem_false in E1. tauto.
+  - apply mem_false. rewrite In_filter_notmem. apply mem_false in E1. tauto.
+Qed.
+
+Lemma In_firstn_l (l : list id) n x : In x (firstn n l) -> In x l.
+Proof. intro H. rewrite <- (firstn_skipn n l). apply in_or_app. left. exact H. Qed.
+
+Lemma In_skipn_l (l : list id) n x : In x (skipn n l) -> In x l.
+Proof. intro H. rewrite <- (firstn_skipn n l). apply in_or_app. right. exact H. Qed.
+
+Lemma NoDup_firstn (l : list id) n : NoDup l -> NoDup (firstn n l).
+Proof. intro H. rewrite <- (firstn_skipn n l) in H. apply (NoDup_app_inv _ _ H). Qed.
+
+Lemma NoDup_skipn (l : list id) n : NoDup l -> NoDup (skipn n l).
+Proof. intro H. rewrite <- (firstn_skipn n l) in H. apply (NoDup_app_inv _ _ H). Qed.
+
+Lemma firstn_skipn_disjoint (l : list id) lo hi x :
+  (lo <= hi)%nat -> NoDup l -> In x (firstn lo l) -> In x (skipn hi l) -> False.
+Proof.
+  intros Hle Hnd H1 H2.
+  assert (Hnd' : NoDup (firstn lo l ++ firstn (hi - lo) (skipn lo l) ++ skipn (lo + (hi - lo)) l))
+    by (rewrite <- slice_split; exact Hnd).
+  replace (lo + (hi - lo))%nat with hi in Hnd' by lia.
+  destruct (NoDup_app_inv _ _ Hnd') as [_ [_ Hd]]. apply (Hd x H1). apply in_or_app. right. exact H2.
+Qed.
+
+Lemma In_assign_slice l lo hi vs x :
+  In x (assign_slice l lo hi vs) <-> In x vs \/ In x (firstn lo l) \/ In x (skipn hi l).
+Proof.
+  unfold assign_slice. rewrite !in_app_iff, !In_filter_notmem, dedup_In.
+  destruct (in_dec Z.eq_dec x vs) as [H|H]; tauto.
+Qed.
+
+Lemma NoDup_assign_slice l lo hi vs : (lo <= hi)%nat -> NoDup l -> NoDup (assign_slice l lo hi vs).
+Proof.
+  intros Hle Hnd. unfold assign_slice.
+  apply NoDup_app_intro; [apply NoDup_filter, NoDup_firstn, Hnd| |].
+  - apply NoDup_app_intro; [apply dedup_NoDup|apply NoDup_filter, NoDup_skipn, Hnd|].
+    intros x H1 H2. apply (proj1 (In_filter_notmem _ _ _)) in H2. apply (proj1 (dedup_In _ _)) in H1. tauto.
+  - intros x H1 H2. apply (proj1 (In_filter_notmem _ _ _)) in H1. destruct H1 as [H1 H1']. apply in_app_or in H2.
+    destruct H2 as [H2|H2].
+    + apply (proj1 (dedup_In _ _)) in H2. contradiction.
+    + apply (proj1 (In_filter_notmem _ _ _)) in H2. eapply firstn_skipn_disjoint; [exact Hle|exact Hnd|exact H1|apply H2].
+Qed.
+
+(* the elements that leave / enter the list *)
+Definition leavers (old new : list id) : list id := filter (fun x => negb (mem x new)) old.
+Definition enterers (old new : list id) : list id := filter (fun x => negb (mem x old)) new.
+
+Lemma ml_assign_eq w ir new :
+  ml_assign w ir new =
+  (with_kids (fst (fold_ok (fun w v => ml_add_hook w ir v) (enterers (kids w ir) new)
+                     (fst (fold_ok (fun w v => ml_remove_hook w ir v) (leavers (kids w ir) new) w)))) ir new,
+   snd (fold_ok (fun w v => ml_remove_hook w ir v) (leavers (kids w ir) new) w) &&
+   snd (fold_ok (fun w v => ml_add_hook w ir v) (enterers (kids w ir) new)
+          (fst (fold_ok (fun w v => ml_remove_hook w ir v) (leavers (kids w ir) new) w)))).
+Proof.
+  unfold ml_assign, leavers, enterers. cbv zeta.
+  destruct (fold_ok (fun w v => ml_remove_hook w ir v) (filter (fun x => negb (mem x new)) (kids w ir)) w) as [w1 ok1].
+  cbn [fst snd].
+  destruct (fold_ok (fun w v => ml_add_hook w ir v) (filter (fun x => negb (mem x (kids w ir))) new) w1) as [w2 ok2].
+  reflexivity.
+Qed.
+
+(* the leavers' hooks leave the virtual list "old without the leavers"; the enterers are not in it *)
+Lemma assign_setup w known ir new :
+  Forest w known -> CacheInv w -> is_k w ir KIR = true -> NoDup new ->
+  (forall v, In v new -> ~ In v (kids w ir) -> is_k w v KMod = true) ->
+  let lv := leavers (kids w ir) new in
+  let en := enterers (kids w ir) new in
+  let kept := filter (fun x => negb (mem x lv)) (kids w ir) in
+  let w1 := fst (fold_ok (fun w v => ml_remove_hook w ir v) lv w) in
+  Forest (with_kids w1 ir (kept ++ [])) known /\ CacheInv (with_kids w1 ir (kept ++ [])) /\
+  snd (fold_ok (fun w v => ml_remove_hook w ir v) lv w) = true /\
+  is_k w1 ir KIR = true /\ (forall v, In v en -> is_k w1 v KMod = true) /\ NoDup en /\
+  (forall v, In v en -> ~ In v (kept ++ [])) /\
+  (forall x, In x (kept ++ en ++ []) <-> In x new).
+Proof.
+  intros F C G Hnd Gv lv en kept w1.
+  assert (Hlv : forall x, In x lv <-> In x (kids w ir) /\ ~ In x new) by (intro x; apply In_filter_notmem).
+  assert (Hen : forall x, In x en <-> In x new /\ ~ In x (kids w ir)) by (intro x; apply In_filter_notmem).
+  assert (Hkept : forall x, In x kept <-> In x (kids w ir) /\ In x new).
+  { intro x. unfold kept. rewrite In_filter_notmem, Hlv. destruct (in_dec Z.eq_dec x new); tauto. }
+  destruct (remove_batch w known ir lv F C G) as [F1 [C1 [Hf1 Hk1]]].
+  - apply NoDup_filter. apply (f_nodup w known F).
+  - intros v Hv. apply Hlv in Hv. apply Hv.
+  - fold w1 in F1, C1, Hk1. fold kept in F1, C1. rewrite app_nil_r.
+    split; [exact F1|]. split; [exact C1|]. split; [exact Hf1|]. split; [rewrite Hk1; exact G|].
+    split; [intros v Hv; rewrite Hk1; apply Hen in Hv; apply Gv; apply Hv|].
+    split; [apply NoDup_filter; exact Hnd|].
+    split; [intros v Hv Hi; apply Hen in Hv; apply Hkept in Hi; tauto|].
+    intro x. rewrite !in_app_iff, Hkept, Hen. cbn [In]. destruct (in_dec Z.eq_dec x (kids w ir)); tauto.
+Qed.
+
+Lemma assign_inv w known ir new :
+  Forest w known -> CacheInv w -> is_k w ir KIR = true -> NoDup new ->
+  (forall v, In v new -> ~ In v (kids w ir) -> is_k w v KMod = true) ->
+  Forest (fst (ml_assign w ir new)) known /\ CacheInv (fst (ml_assign w ir new)) /\ snd (ml_assign w ir new) = true.
+Proof.
+  intros F C G Hnd Gv. rewrite ml_assign_eq. cbn [fst snd].
+  destruct (assign_setup w known ir new F C G Hnd Gv) as [F1 [C1 [Hf1 [G1 [Gv1 [Hnden [Hnin Hall]]]]]]].
+  cbv zeta in F1, C1, Hf1, G1, Gv1, Hnden, Hnin, Hall.
+  destruct (add_hooks_fold known ir _ _ _ [] F1 C1 G1 Gv1 Hnden Hnin) as [F2 [C2 [Hf2 _]]].
+  destruct (relist_inv _ known ir new F2 C2 Hnd) as [F3 C3].
+  { intro x. rewrite kids_with_kids_same. symmetry. apply Hall. }
+  split; [eapply Forest_weq; [apply with_kids_twice|exact F3]|].
+  split; [eapply CacheInv_weq; [apply with_kids_twice|exact C3]|].
+  rewrite Hf1, Hf2. reflexivity.
+Qed.
+
+Lemma good_assign w known o ir new :
+  Forest w known -> CacheInv w -> is_k w ir KIR = true -> NoDup new ->
+  (forall v, In v new -> ~ In v (kids w ir) -> is_k w v KMod = true) ->
+  step w o = flagged (ml_assign w ir new) -> known_after o known = known -> Good w known o.
+Proof.
+  intros F C G Hnd Gv Hs Hk. destruct (assign_inv w known ir new F C G Hnd Gv) as [F' [C' Hf]].
+  apply (good_ok w known o (fst (ml_assign w ir new))); [|rewrite Hk; exact F'|exact C'].
+  rewrite Hs. apply flagged_true. exact Hf.
+Qed.
+
+Lemma step_setitem w ir i v k : norm_index i (length (kids w ir)) = Some k ->
+  step w (OModSetItem ir i v) = flagged (ml_assign w ir (assign_slice (kids w ir) k (S k) [v])).
+Proof. intro H. cbn [step]. rewrite H. reflexivity. Qed.
 
 Lemma step_setslice w ir a b vs :
   step w (OModSetSlice ir a b vs) =
   let l := kids w ir in
   let lo := norm_bound a 0 (length l) in
   let hi := Z.max lo (norm_bound b (Z.of_nat (length l)) (length l)) in
-  let pre := firstn (Z.to_nat lo) l in
-  let victims := slice_victims l lo hi in
-  let post := skipn (Z.to_nat hi) l in
-  if existsb (fun v => mem v pre || mem v post) vs || negb (Nat.eqb (length (dedup vs)) (length vs)) then Err EImpossible
-  else
-    let w1 := fst (fold_ok (fun w v => ml_remove_hook w ir v) victims w) in
-    flagged (with_kids (fst (fold_ok (fun w v => ml_add_hook w ir v) vs w1)) ir (pre ++ vs ++ post),
-             snd (fold_ok (fun w v => ml_remove_hook w ir v) victims w) && snd (fold_ok (fun w v => ml_add_hook w ir v) vs w1)).
+  flagged (ml_assign w ir (assign_slice l (Z.to_nat lo) (Z.to_nat hi) vs)).
+Proof. reflexivity. Qed.
+
+(* the elements of an assigned list that were not in the old one are among the assigned values *)
+Lemma assign_slice_new_is_value l lo hi vs x : In x (assign_slice l lo hi vs) -> ~ In x l -> In x vs.
 Proof.
-  cbn [step]. cbv zeta. unfold slice_victims.
-  destruct (existsb _ vs || _); [reflexivity|].
-  destruct (fold_ok (fun w v => ml_remove_hook w ir v) _ w) as [w1 ok1]. cbn [fst snd].
-  destruct (fold_ok (fun w v => ml_add_hook w ir v) vs w1) as [w2 ok2]. reflexivity.
+  intros H Hn. apply In_assign_slice in H. destruct H as [H|[H|H]]; [exact H| |]; exfalso; apply Hn.
+  - eapply In_firstn_l. exact H.
+  - eapply In_skipn_l. exact H.
+Qed.
+
+Lemma good_setitem w known ir i v :
+  Forest w known -> CacheInv w -> op_okb w known (OModSetItem ir i v) = true -> Good w known (OModSetItem ir i v).
+Proof.
+  intros F C G. cbn [op_okb] in G. apply andb_true_iff in G. destruct G as [G1 G2].
+  destruct (norm_index i (length (kids w ir))) as [k|] eqn:En.
+  2:{ apply (good_err w known _ EIndex); [cbn [step]; rewrite En; reflexivity|discriminate|reflexivity|exact F|exact C]. }
+  apply (good_assign w known _ ir (assign_slice (kids w ir) k (S k) [v]) F C G1).
+  - apply NoDup_assign_slice; [lia|apply (f_nodup w known F)].
+  - intros x Hx Hnx. apply (assign_slice_new_is_value _ _ _ _ _ Hx) in Hnx. destruct Hnx as [Hnx|[]]. subst x. exact G2.
+  - apply step_setitem. exact En.
+  - reflexivity.
 Qed.
 
 Lemma good_setslice w known ir a b vs :
@@ -1290,22 +1372,11 @@ Proof.
   pose proof (step_setslice w ir a b vs) as Hs. cbv zeta in Hs.
   set (l := kids w ir) in *. set (lo := norm_bound a 0 (length l)) in *.
   set (hi := Z.max lo (norm_bound b (Z.of_nat (length l)) (length l))) in *.
-  set (pre := firstn (Z.to_nat lo) l) in *. set (post := skipn (Z.to_nat hi) l) in *.
-  destruct (existsb (fun v => mem v pre || mem v post) vs || negb (Nat.eqb (length (dedup vs)) (length vs))) eqn:Ec.
-  { apply (good_err w known _ EImpossible); [exact Hs|discriminate|reflexivity|exact F|exact C]. }
-  apply orb_false_iff in Ec. destruct Ec as [Ec1 Ec2].
-  assert (Hlo : 0 <= lo) by (apply norm_bound_nonneg; lia).
-  assert (Hl : kids w ir = pre ++ slice_victims l lo hi ++ post).
-  { pose proof (slice_victims_split l lo hi Hlo) as H. replace (Z.max lo hi) with hi in H by (unfold hi; lia). exact H. }
-  assert (Hnd : NoDup vs).
-  { apply dedup_full_nodup. apply negb_false_iff in Ec2. apply Nat.eqb_eq. exact Ec2. }
-  assert (Hnin : forall v, In v vs -> ~ In v (pre ++ post)).
-  { intros v Hv Hi. assert (Hex : existsb (fun v => mem v pre || mem v post) vs = true); [|congruence].
-    apply existsb_exists. exists v. split; [exact Hv|]. apply in_app_or in Hi. apply orb_true_iff.
-    destruct Hi as [Hi|Hi]; [left|right]; apply mem_In; exact Hi. }
-  destruct (setslice_main w known ir pre (slice_victims l lo hi) post vs F C G1 Hl G2 Hnd Hnin) as [F2 [C2 [Hf1 Hf2]]].
-  rewrite Hf1, Hf2 in Hs. cbn [andb flagged] in Hs.
-  apply (good_ok w known _ _ Hs); assumption.
+  apply (good_assign w known _ ir (assign_slice l (Z.to_nat lo) (Z.to_nat hi) vs) F C G1).
+  - apply NoDup_assign_slice; [unfold hi; lia|apply (f_nodup w known F)].
+  - intros x Hx Hnx. apply G2. apply (assign_slice_new_is_value _ _ _ _ _ Hx Hnx).
+  - exact Hs.
+  - reflexivity.
 Qed.
 
 (* ================================================================== *)
@@ -1878,44 +1949,222 @@ Proof.
     + intros x Hx. rewrite cache_with_kids. apply cache_remove_hooks_fold_other. exact Hx.
 Qed.
 
+(* ---------- item and slice assignment: the general closed form ---------- *)
+
+(* a listed child's record already carries its owner *)
+Lemma nodes_self_par w known p c :
+  Forest w known -> In c (kids w p) -> nodes w c = Some (with_par (getn w c) (Some p)).
+Proof.
+  intros F H. apply (f_two_ended w known F) in H.
+  destruct (f_kind w known F p c H) as [Hh _].
+  unfold has in Hh. unfold par, getn in *. destruct (nodes w c) as [nd|]; [|discriminate].
+  destruct nd as [a1 a2 a3 a4 a5 a6 a7 a8]. cbn in H. subst. reflexivity.
+Qed.
+
+Lemma not_in_other_list w known p q c : Forest w known -> In c (kids w p) -> p <> q -> ~ In c (kids w q).
+Proof.
+  intros F H Hne Hq. apply (f_two_ended w known F) in H. apply (f_two_ended w known F) in Hq. congruence.
+Qed.
+
+Lemma assign_closed w known ir new :
+  Forest w known -> CacheInv w -> is_k w ir KIR = true -> NoDup new ->
+  (forall v, In v new -> ~ In v (kids w ir) -> is_k w v KMod = true) ->
+  kids (fst (ml_assign w ir new)) ir = new /\
+  (forall x, x <> ir -> kids (fst (ml_assign w ir new)) x = filter (fun c => negb (mem c new)) (kids w x)) /\
+  (forall x, nodes (fst (ml_assign w ir new)) x =
+             if mem x new then (if mem x (kids w ir) then nodes w x else Some (with_par (getn w x) (Some ir)))
+             else if mem x (kids w ir) then Some (with_par (getn w x) None) else nodes w x).
+Proof.
+  intros F C G Hnd Gv. rewrite ml_assign_eq. cbn [fst].
+  destruct (assign_setup w known ir new F C G Hnd Gv) as [F1 [C1 [_ [G1 [Gv1 [Hnden [Hnin _]]]]]]].
+  cbv zeta in F1, C1, G1, Gv1, Hnden, Hnin.
+  destruct (add_hooks_fold_closed known ir _ _ _ [] F1 C1 G1 Gv1 Hnden Hnin) as [Hk2 [Hn2 _]].
+  split; [apply kids_with_kids_same|]. split.
+  - intros x Hx. rewrite kids_with_kids_other by exact Hx. rewrite (Hk2 x Hx), kids_remove_hooks_fold, fold_remove_filter.
+    apply filter_ext_in. intros c Hc. f_equal. unfold enterers. rewrite mem_filter_notmem.
+    assert (Hm : mem c (kids w ir) = false).
+    { apply mem_false. apply (not_in_other_list w known x ir c F Hc Hx). }
+    rewrite Hm. apply andb_true_r.
+  - intro x. rewrite nodes_with_kids, Hn2.
+    pose proof (nodes_remove_hooks_fold ir (leavers (kids w ir) new) w x) as Hn1.
+    unfold enterers at 1. unfold leavers at 2 in Hn1. rewrite mem_filter_notmem in Hn1. rewrite mem_filter_notmem.
+    destruct (mem x new); destruct (mem x (kids w ir)); cbn [andb negb] in *.
+    + exact Hn1.
+    + rewrite (getn_of_nodes_eq w _ x Hn1). reflexivity.
+    + exact Hn1.
+    + exact Hn1.
+Qed.
+
 (* ---------- set item ---------- *)
+
+Lemma nth_split_id (l : list id) : forall k old, nth_error l k = Some old -> l = firstn k l ++ old :: skipn (S k) l.
+Proof.
+  induction l as [|y l IH]; intros k old H.
+  - destruct k; discriminate.
+  - destruct k as [|k].
+    + cbn in H. inversion H. reflexivity.
+    + cbn [nth_error] in H. cbn [firstn app]. change (skipn (S (S k)) (y :: l)) with (skipn (S k) l).
+      f_equal. apply IH. exact H.
+Qed.
+
+Lemma In_middle (a b : list id) old l x : l = a ++ old :: b -> (In x l <-> In x a \/ x = old \/ In x b).
+Proof. intros ->. rewrite in_app_iff. cbn [In]. split; [intros [H|[H|H]]; auto|intros [H|[H|H]]; auto]. Qed.
+
+Lemma nth_parts (l : list id) k old : NoDup l -> nth_error l k = Some old ->
+  ~ In old (firstn k l) /\ ~ In old (skipn (S k) l) /\
+  (forall x, In x l <-> In x (firstn k l) \/ x = old \/ In x (skipn (S k) l)).
+Proof.
+  intros Hnd H. pose proof (nth_split_id l k old H) as E.
+  assert (Hnd' : NoDup (firstn k l ++ old :: skipn (S k) l)) by (rewrite <- E; exact Hnd).
+  apply NoDup_remove_2 in Hnd'.
+  split; [intro Hi; apply Hnd'; apply in_or_app; left; exact Hi|].
+  split; [intro Hi; apply Hnd'; apply in_or_app; right; exact Hi|].
+  intro x. apply In_middle. exact E.
+Qed.
+
+Lemma dedup_single v : dedup [v] = [v].
+Proof. reflexivity. Qed.
+
+Lemma mem_single x v : mem x [v] = (x =? v).
+Proof. unfold mem. cbn [existsb]. apply orb_false_r. Qed.
+
+Lemma In_setitem_new l k old v x : NoDup l -> nth_error l k = Some old ->
+  (In x (assign_slice l k (S k) [v]) <-> x = v \/ (In x l /\ x <> old)).
+Proof.
+  intros Hnd H. destruct (nth_parts l k old Hnd H) as [Hop [Hos Hin]].
+  rewrite In_assign_slice, Hin. cbn [In]. split.
+  - intros [[E|[]]|[Hx|Hx]]; [left; symmetry; exact E| |]; right; (split; [tauto|]); intro E; subst; contradiction.
+  - intros [E|[[Hx|[Hx|Hx]] Hne]]; [left; left; symmetry; exact E|right; left; exact Hx|contradiction|right; right; exact Hx].
+Qed.
+
+(* the resulting list when the value is new to the list (or replaces itself): plain replacement *)
+Theorem setitem_list_fresh (l : list id) k v old :
+  ~ In v l \/ v = old -> NoDup l -> nth_error l k = Some old -> assign_slice l k (S k) [v] = set_at k v l.
+Proof.
+  intros Hv Hnd H. destruct (nth_parts l k old Hnd H) as [Hop [Hos _]].
+  assert (Hlt : (k < length l)%nat) by (apply nth_error_Some; congruence).
+  rewrite (set_at_firstn_skipn v k l Hlt). unfold assign_slice. rewrite dedup_single.
+  assert (Hvp : ~ In v (firstn k l)).
+  { destruct Hv as [Hv|Hv]; [intro Hi; apply Hv; eapply In_firstn_l; exact Hi|subst; exact Hop]. }
+  assert (Hvs : ~ In v (skipn (S k) l)).
+  { destruct Hv as [Hv|Hv]; [intro Hi; apply Hv; eapply In_skipn_l; exact Hi|subst; exact Hos]. }
+  rewrite (filter_all _ (firstn k l)), (filter_all _ (skipn (S k) l)); [reflexivity| |].
+  - intros x Hx. rewrite mem_single. apply negb_true_iff. apply Z.eqb_neq. intro E. subst. contradiction.
+  - intros x Hx. rewrite mem_single. apply negb_true_iff. apply Z.eqb_neq. intro E. subst. contradiction.
+Qed.
+
+Lemma remove_id_length_in (v : id) l : NoDup l -> In v l -> S (length (remove_id v l)) = length l.
+Proof.
+  induction l as [|y l IH]; intros Hnd Hin; [destruct Hin|].
+  inversion Hnd as [|y' l' Hy Hl]. subst. destruct (Z.eq_dec y v) as [E|E].
+  - subst. rewrite remove_id_cons_same, (remove_id_notin v l Hy). reflexivity.
+  - destruct Hin as [Hin|Hin]; [contradiction|]. rewrite (remove_id_cons_other v y l E). cbn [length].
+    f_equal. apply IH; assumption.
+Qed.
+
+Lemma remove_id_mem_single v l : filter (fun x => negb (mem x [v])) l = remove_id v l.
+Proof. unfold remove_id. apply filter_ext. intro x. rewrite mem_single. reflexivity. Qed.
+
+Lemma nth_error_firstn_lt (l : list id) k j : (j < k)%nat -> (k <= length l)%nat -> nth_error (firstn k l) j = nth_error l j.
+Proof.
+  intros Hj Hk. rewrite <- (firstn_skipn k l) at 2. symmetry. apply nth_error_app1. rewrite firstn_length. lia.
+Qed.
+
+(* the resulting list when the value already sits elsewhere in the list: it is moved to the assigned place,
+   the replaced element leaves, everything else keeps its relative order *)
+Theorem setitem_list_moved (l : list id) k v old :
+  NoDup l -> nth_error l k = Some old -> In v l -> v <> old ->
+  NoDup (assign_slice l k (S k) [v]) /\ (forall x, In x (assign_slice l k (S k) [v]) <-> In x l /\ x <> old).
+Proof.
+  intros Hnd H Hv Hne. split; [apply NoDup_assign_slice; [lia|exact Hnd]|].
+  intro x. rewrite (In_setitem_new l k old v x Hnd H). split; [|tauto].
+  intros [E|Hx]; [subst; tauto|exact Hx].
+Qed.
+
+Theorem setitem_list_moved_position (l : list id) k v old j :
+  NoDup l -> nth_error l k = Some old -> v <> old -> index_of v l = Some j ->
+  nth_error (assign_slice l k (S k) [v]) (k - (if (j <? k)%nat then 1 else 0)) = Some v.
+Proof.
+  intros Hnd H Hne Hj. apply index_of_nth in Hj.
+  assert (Hlt : (k < length l)%nat) by (apply nth_error_Some; congruence).
+  assert (Hjk : j <> k) by (intro E; subst; congruence).
+  unfold assign_slice. rewrite dedup_single, !remove_id_mem_single.
+  assert (Hpos : length (remove_id v (firstn k l)) = (k - (if (j <? k)%nat then 1 else 0))%nat).
+  { assert (Hlen : length (firstn k l) = k) by (rewrite firstn_length; lia).
+    destruct (Nat.ltb_spec j k) as [Hlt'|Hge].
+    - assert (Hin : In v (firstn k l)).
+      { apply (nth_error_In _ j). rewrite nth_error_firstn_lt by lia. exact Hj. }
+      pose proof (remove_id_length_in v (firstn k l) (NoDup_firstn l k Hnd) Hin) as Hl. lia.
+    - rewrite remove_id_notin; [lia|]. intro Hin. apply In_nth_error in Hin. destruct Hin as [j' Hj'].
+      assert (Hj'k : (j' < k)%nat).
+      { rewrite <- Hlen. apply nth_error_Some. congruence. }
+      rewrite nth_error_firstn_lt in Hj' by lia.
+      assert (j' = j); [|lia].
+      apply (proj1 (NoDup_nth_error l) Hnd j' j); [apply nth_error_Some; congruence|congruence]. }
+  rewrite <- Hpos. rewrite nth_error_app2 by lia. rewrite Nat.sub_diag. reflexivity.
+Qed.
+
+Theorem setitem_list_moved_order (l : list id) k v old :
+  NoDup l -> nth_error l k = Some old -> v <> old ->
+  filter (fun x => negb (x =? v)) (assign_slice l k (S k) [v]) = filter (fun x => negb (x =? v)) (remove_id old l).
+Proof.
+  intros Hnd H Hne. destruct (nth_parts l k old Hnd H) as [Hop [Hos _]].
+  pose proof (nth_split_id l k old H) as E.
+  assert (Hr : remove_id old l = firstn k l ++ skipn (S k) l).
+  { rewrite E at 1. rewrite remove_id_app, remove_id_cons_same, (remove_id_notin old _ Hop), (remove_id_notin old _ Hos).
+    reflexivity. }
+  rewrite Hr. unfold assign_slice. rewrite dedup_single, !remove_id_mem_single, !filter_app.
+  assert (Hf : forall a, filter (fun x => negb (x =? v)) a = remove_id v a) by reflexivity.
+  rewrite !Hf.
+  assert (Hidem : forall a, remove_id v (remove_id v a) = remove_id v a).
+  { intro a. apply remove_id_notin. rewrite In_remove_id. tauto. }
+  rewrite !Hidem, remove_id_cons_same. reflexivity.
+Qed.
+
 Theorem setitem_effect w known ir i v k old :
   Forest w known -> CacheInv w -> op_okb w known (OModSetItem ir i v) = true ->
   norm_index i (length (kids w ir)) = Some k -> nth_error (kids w ir) k = Some old ->
-  (~ In v (kids w ir) \/ v = old) ->
   exists w', step w (OModSetItem ir i v) = Ok w' /\
-    kids w' ir = set_at k v (kids w ir) /\
+    kids w' ir = assign_slice (kids w ir) k (S k) [v] /\
     (forall x, x <> ir -> kids w' x = remove_id v (kids w x)) /\
     (forall x, nodes w' x = if x =? v then Some (with_par (getn w v) (Some ir))
                             else if x =? old then Some (with_par (getn w old) None) else nodes w x) /\
     par w' v = Some ir /\ (v <> old -> par w' old = None).
 Proof.
-  intros F C G En Eo Hv. cbn [op_okb] in G. apply andb_true_iff in G. destruct G as [G1 G2].
-  assert (Ec : mem v (kids w ir) && negb (v =? old) = false).
-  { destruct Hv as [Hv|Hv]; [apply mem_false in Hv; rewrite Hv; reflexivity|].
-    subst. rewrite Z.eqb_refl. apply andb_false_r. }
-  destruct (setitem_main w known ir v k old F C G1 G2 Eo Hv) as [_ [_ [Hf1 [Hf2 Hk]]]].
-  pose proof (step_setitem w ir i v k old En Eo Ec) as Hs. rewrite Hk, Hf1, Hf2 in Hs. cbn [andb flagged] in Hs.
-  (* closed form of the add hook on the intermediate world *)
-  destruct (virtual_start w known ir F C) as [F0 C0].
+  intros F C G En Eo. cbn [op_okb] in G. apply andb_true_iff in G. destruct G as [G1 G2].
+  assert (Hndl : NoDup (kids w ir)) by apply (f_nodup w known F).
+  set (new := assign_slice (kids w ir) k (S k) [v]).
+  assert (Hndn : NoDup new) by (apply NoDup_assign_slice; [lia|exact Hndl]).
+  assert (Gv : forall x, In x new -> ~ In x (kids w ir) -> is_k w x KMod = true).
+  { intros x Hx Hnx. apply (assign_slice_new_is_value _ _ _ _ _ Hx) in Hnx. destruct Hnx as [Hnx|[]]. subst x. exact G2. }
+  destruct (assign_inv w known ir new F C G1 Hndn Gv) as [_ [_ Hf]].
+  destruct (assign_closed w known ir new F C G1 Hndn Gv) as [Hk [Hko Hn]].
+  pose proof (fun x => In_setitem_new (kids w ir) k old v x Hndl Eo) as Hnew. fold new in Hnew.
   assert (Hoin : In old (kids w ir)) by (eapply nth_error_In; exact Eo).
-  destruct (remove_hook_virtual w known ir (kids w ir) old F0 C0 G1 Hoin) as [F1 _].
-  set (w1 := fst (ml_remove_hook w ir old)) in *.
-  assert (Hp1 : par w1 v <> Some ir).
-  { intro E. change (par w1 v) with (par (with_kids w1 ir (remove_id old (kids w ir))) v) in E.
-    apply (f_two_ended _ known F1) in E. rewrite kids_with_kids_same, In_remove_id in E.
-    destruct E as [E1 E2]. destruct Hv; contradiction. }
-  destruct (add_hook_closed w1 ir v (ok_except_virtual w1 known ir _ F1) Hp1) as [Hn2 [Hk2 _]].
-  assert (Hn : forall x, nodes (fst (ml_add_hook w1 ir v)) x =
-                         if x =? v then Some (with_par (getn w v) (Some ir))
-                         else if x =? old then Some (with_par (getn w old) None) else nodes w x).
-  { intro x. rewrite Hn2. unfold w1. rewrite getn_remove_hook, nodes_remove_hook.
-    destruct (Z.eqb_spec x v) as [E|E]; [|reflexivity]. destruct (Z.eqb_spec v old) as [E1|E1]; [subst|]; reflexivity. }
-  eexists. split; [exact Hs|]. split; [apply kids_with_kids_same|]. split; [|split; [|split]].
-  - intros x Hx. rewrite kids_with_kids_other by exact Hx. rewrite (Hk2 x Hx). reflexivity.
-  - intro x. rewrite nodes_with_kids. apply Hn.
-  - erewrite par_of_nodes; [|rewrite nodes_with_kids, Hn, Z.eqb_refl; reflexivity]. reflexivity.
-  - intro Hne. erewrite par_of_nodes; [|rewrite nodes_with_kids, Hn].
+  assert (Hn' : forall x, nodes (fst (ml_assign w ir new)) x =
+                          if x =? v then Some (with_par (getn w v) (Some ir))
+                          else if x =? old then Some (with_par (getn w old) None) else nodes w x).
+  { intro x. rewrite Hn. destruct (Z.eqb_spec x v) as [E|E].
+    - subst x. assert (Hm : mem v new = true) by (apply mem_In; apply Hnew; left; reflexivity). rewrite Hm.
+      destruct (mem v (kids w ir)) eqn:Em; [|reflexivity].
+      apply (nodes_self_par w known ir v F). apply mem_In. exact Em.
+    - destruct (Z.eqb_spec x old) as [E1|E1].
+      + subst x. assert (Hm : mem old new = false).
+        { apply mem_false. intro Hi. apply Hnew in Hi. destruct Hi as [Hi|[_ Hi]]; contradiction. }
+        rewrite Hm. assert (Hm2 : mem old (kids w ir) = true) by (apply mem_In; exact Hoin). rewrite Hm2. reflexivity.
+      + assert (Hm : mem x new = mem x (kids w ir)).
+        { apply mem_ext. rewrite Hnew. split; [intros [Hi|[Hi _]]; [contradiction|exact Hi]|intro Hi; right; split; assumption]. }
+        rewrite Hm. destruct (mem x (kids w ir)); reflexivity. }
+  exists (fst (ml_assign w ir new)).
+  split; [rewrite (step_setitem w ir i v k En); apply flagged_true; exact Hf|].
+  split; [exact Hk|]. split; [|split; [exact Hn'|split]].
+  - intros x Hx. rewrite (Hko x Hx). unfold remove_id. apply filter_ext_in. intros c Hc. f_equal.
+    pose proof (not_in_other_list w known x ir c F Hc Hx) as Hnc.
+    destruct (Z.eqb_spec c v) as [E|E].
+    + apply mem_In. apply Hnew. left. exact E.
+    + apply mem_false. intro Hi. apply Hnew in Hi. destruct Hi as [Hi|[Hi _]]; contradiction.
+  - erewrite par_of_nodes; [|rewrite Hn', Z.eqb_refl; reflexivity]. reflexivity.
+  - intro Hne. erewrite par_of_nodes; [|rewrite Hn'].
     2:{ destruct (Z.eqb_spec old v) as [E|E]; [congruence|]. rewrite Z.eqb_refl. reflexivity. }
     reflexivity.
 Qed.
@@ -1924,85 +2173,129 @@ Theorem setitem_effect_index w ir i v :
   norm_index i (length (kids w ir)) = None -> step w (OModSetItem ir i v) = Err EIndex.
 Proof. intro H. cbn [step]. rewrite H. reflexivity. Qed.
 
-(* the refused same-list shape (defect D4) *)
-Theorem setitem_effect_refused w ir i v k old :
-  norm_index i (length (kids w ir)) = Some k -> nth_error (kids w ir) k = Some old ->
-  In v (kids w ir) -> v <> old -> step w (OModSetItem ir i v) = Err EImpossible.
+(* ---------- set slice ---------- *)
+
+(* the three parts of the old list around a slice *)
+Lemma slice_parts (l : list id) lo hi :
+  0 <= lo -> lo <= hi -> NoDup l ->
+  (forall x, In x l <-> In x (firstn (Z.to_nat lo) l) \/ In x (slice_victims l lo hi) \/ In x (skipn (Z.to_nat hi) l)) /\
+  (forall x, In x (slice_victims l lo hi) -> ~ In x (firstn (Z.to_nat lo) l) /\ ~ In x (skipn (Z.to_nat hi) l)).
 Proof.
-  intros H1 H2 H3 H4. cbn [step]. rewrite H1, H2. apply mem_In in H3. rewrite H3.
-  destruct (Z.eqb_spec v old); [contradiction|]. reflexivity.
+  intros Hlo Hle Hnd. pose proof (slice_victims_split l lo hi Hlo) as E.
+  replace (Z.max lo hi) with hi in E by lia.
+  assert (Hnd' : NoDup (firstn (Z.to_nat lo) l ++ slice_victims l lo hi ++ skipn (Z.to_nat hi) l)) by (rewrite <- E; exact Hnd).
+  destruct (NoDup_app_inv _ _ Hnd') as [_ [H2 Hd1]]. destruct (NoDup_app_inv _ _ H2) as [_ [_ Hd2]].
+  split.
+  - intro x. rewrite <- !in_app_iff. rewrite <- E. reflexivity.
+  - intros x Hx. split; intro Hi.
+    + apply (Hd1 x Hi). apply in_or_app. left. exact Hx.
+    + apply (Hd2 x Hx Hi).
 Qed.
 
-(* ---------- set slice ---------- *)
 Theorem setslice_effect w known ir a b vs :
   Forest w known -> CacheInv w -> op_okb w known (OModSetSlice ir a b vs) = true ->
   let l := kids w ir in
   let lo := norm_bound a 0 (length l) in
   let hi := Z.max lo (norm_bound b (Z.of_nat (length l)) (length l)) in
-  let pre := firstn (Z.to_nat lo) l in
   let victims := slice_victims l lo hi in
-  let post := skipn (Z.to_nat hi) l in
-  NoDup vs -> (forall v, In v vs -> ~ In v pre /\ ~ In v post) ->
   exists w', step w (OModSetSlice ir a b vs) = Ok w' /\
-    kids w' ir = pre ++ vs ++ post /\
+    kids w' ir = assign_slice l (Z.to_nat lo) (Z.to_nat hi) vs /\
     (forall x, x <> ir -> kids w' x = fold_left (fun l v => remove_id v l) vs (kids w x)) /\
     (forall x, nodes w' x = if mem x vs then Some (with_par (getn w x) (Some ir))
                             else if mem x victims then Some (with_par (getn w x) None) else nodes w x).
 Proof.
-  intros F C G l lo hi pre victims post Hnd Hout.
+  intros F C G l lo hi victims.
   cbn [op_okb] in G. apply andb_true_iff in G. destruct G as [G1 G2]. rewrite forallb_forall in G2.
-  pose proof (step_setslice w ir a b vs) as Hs. cbv zeta in Hs.
-  fold l in Hs. fold lo in Hs. fold hi in Hs. fold pre in Hs. fold post in Hs. fold victims in Hs.
-  assert (Ec : existsb (fun v => mem v pre || mem v post) vs || negb (Nat.eqb (length (dedup vs)) (length vs)) = false).
-  { apply orb_false_iff. split.
-    - destruct (existsb (fun v => mem v pre || mem v post) vs) eqn:E; [|reflexivity]. exfalso.
-      apply existsb_exists in E. destruct E as [v [Hv Hm]]. destruct (Hout v Hv) as [H1 H2].
-      apply orb_true_iff in Hm. destruct Hm as [Hm|Hm]; apply mem_In in Hm; contradiction.
-    - apply negb_false_iff. apply Nat.eqb_eq.
-      clear - Hnd. induction vs as [|x vs IH]; [reflexivity|]. inversion Hnd as [|x' vs' Hx Hn]. subst.
-      cbn [dedup]. apply mem_false in Hx. rewrite Hx. cbn [length]. f_equal. apply IH. exact Hn. }
-  rewrite Ec in Hs.
+  pose proof (step_setslice w ir a b vs) as Hs. cbv zeta in Hs. fold l in Hs. fold lo in Hs. fold hi in Hs.
+  assert (Hndl : NoDup l) by apply (f_nodup w known F).
   assert (Hlo : 0 <= lo) by (apply norm_bound_nonneg; lia).
-  assert (Hl : kids w ir = pre ++ victims ++ post).
-  { pose proof (slice_victims_split l lo hi Hlo) as H. replace (Z.max lo hi) with hi in H by (unfold hi; lia). exact H. }
-  assert (Hnin : forall v, In v vs -> ~ In v (pre ++ post)).
-  { intros v Hv Hi. destruct (Hout v Hv) as [H1 H2]. apply in_app_or in Hi. destruct Hi; contradiction. }
-  destruct (setslice_main w known ir pre victims post vs F C G1 Hl G2 Hnd Hnin) as [_ [_ [Hf1 Hf2]]].
-  rewrite Hf1, Hf2 in Hs. cbn [andb flagged] in Hs.
-  destruct (remove_slice w known ir pre victims post F C G1 Hl) as [F1 [C1 [_ [Hk1 _]]]].
-  set (w1 := fst (fold_ok (fun w v => ml_remove_hook w ir v) victims w)) in *.
-  destruct (add_hooks_fold_closed known ir vs w1 pre post F1 C1) as [Hk2 [Hn2 _]].
-  - rewrite Hk1. exact G1.
-  - intros v Hv. rewrite Hk1. apply G2. exact Hv.
-  - exact Hnd.
-  - exact Hnin.
-  - eexists. split; [exact Hs|]. split; [apply kids_with_kids_same|]. split.
-    + intros x Hx. rewrite kids_with_kids_other by exact Hx. rewrite (Hk2 x Hx). unfold w1.
-      rewrite kids_remove_hooks_fold. reflexivity.
-    + intro x. rewrite nodes_with_kids, Hn2.
-      assert (Hn1 : nodes w1 x = if mem x victims then Some (with_par (getn w x) None) else nodes w x)
-        by apply nodes_remove_hooks_fold.
-      destruct (mem x vs).
-      * destruct (mem x victims).
-        -- rewrite (getn_of_nodes_some w1 x _ Hn1). reflexivity.
-        -- rewrite (getn_of_nodes_eq w w1 x Hn1). reflexivity.
-      * exact Hn1.
+  assert (Hle : lo <= hi) by (unfold hi; lia).
+  set (new := assign_slice l (Z.to_nat lo) (Z.to_nat hi) vs) in *.
+  assert (Hndn : NoDup new) by (apply NoDup_assign_slice; [lia|exact Hndl]).
+  assert (Gv : forall x, In x new -> ~ In x (kids w ir) -> is_k w x KMod = true).
+  { intros x Hx Hnx. apply G2. apply (assign_slice_new_is_value _ _ _ _ _ Hx Hnx). }
+  destruct (assign_inv w known ir new F C G1 Hndn Gv) as [_ [_ Hf]].
+  destruct (assign_closed w known ir new F C G1 Hndn Gv) as [Hk [Hko Hn]].
+  pose proof (fun x => In_assign_slice l (Z.to_nat lo) (Z.to_nat hi) vs x) as Hnew. fold new in Hnew.
+  destruct (slice_parts l lo hi Hlo Hle Hndl) as [Hl3 Hvd]. fold victims in Hl3, Hvd.
+  exists (fst (ml_assign w ir new)).
+  split; [rewrite Hs; apply flagged_true; exact Hf|]. split; [exact Hk|]. split.
+  - intros x Hx. rewrite (Hko x Hx), fold_remove_filter. apply filter_ext_in. intros c Hc. f_equal.
+    pose proof (not_in_other_list w known x ir c F Hc Hx) as Hnc. fold l in Hnc.
+    apply mem_ext. rewrite Hnew. split; [|tauto].
+    intros [Hi|[Hi|Hi]]; [exact Hi| |]; exfalso; apply Hnc; [eapply In_firstn_l|eapply In_skipn_l]; exact Hi.
+  - intro x. rewrite Hn. fold l. destruct (mem x vs) eqn:Evs.
+    + assert (Hm : mem x new = true) by (apply mem_In; apply Hnew; left; apply mem_In; exact Evs). rewrite Hm.
+      destruct (mem x l) eqn:Em; [|reflexivity].
+      apply (nodes_self_par w known ir x F). apply mem_In. exact Em.
+    + apply mem_false in Evs. destruct (mem x victims) eqn:Evi.
+      * apply mem_In in Evi. destruct (Hvd x Evi) as [Hp Hq].
+        assert (Hm : mem x new = false) by (apply mem_false; rewrite Hnew; tauto). rewrite Hm.
+        assert (Hm2 : mem x l = true) by (apply mem_In; apply Hl3; tauto). rewrite Hm2. reflexivity.
+      * apply mem_false in Evi.
+        assert (Hm : mem x new = mem x l) by (apply mem_ext; rewrite Hnew, Hl3; tauto).
+        rewrite Hm. destruct (mem x l); reflexivity.
 Qed.
 
-(* the refused shapes (defect D4): a value that stays elsewhere in the list, or a value listed twice *)
-Theorem setslice_effect_refused w ir a b vs :
+(* the old well-separated shape: distinct values, none of which stays in the list outside the slice *)
+Theorem setslice_list_separate (l : list id) lo hi vs :
+  NoDup vs -> (forall v, In v vs -> ~ In v (firstn lo l) /\ ~ In v (skipn hi l)) ->
+  assign_slice l lo hi vs = firstn lo l ++ vs ++ skipn hi l.
+Proof.
+  intros Hnd Hout. unfold assign_slice. rewrite (dedup_nodup_id vs Hnd).
+  rewrite (filter_all _ (firstn lo l)), (filter_all _ (skipn hi l)); [reflexivity| |].
+  - intros x Hx. apply negb_true_iff. apply mem_false. intro Hv. apply (proj2 (Hout x Hv)). exact Hx.
+  - intros x Hx. apply negb_true_iff. apply mem_false. intro Hv. apply (proj1 (Hout x Hv)). exact Hx.
+Qed.
+
+(* ---------- assignment moves: membership and ownership after a same-list / repeated-value assignment ---------- *)
+Theorem setitem_effect_moves w known ir i v k old :
+  Forest w known -> CacheInv w -> op_okb w known (OModSetItem ir i v) = true ->
+  norm_index i (length (kids w ir)) = Some k -> nth_error (kids w ir) k = Some old -> In v (kids w ir) -> v <> old ->
+  exists w', step w (OModSetItem ir i v) = Ok w' /\
+    kids w' ir = assign_slice (kids w ir) k (S k) [v] /\
+    NoDup (kids w' ir) /\ (forall x, In x (kids w' ir) <-> In x (kids w ir) /\ x <> old) /\
+    par w' v = Some ir /\ par w' old = None.
+Proof.
+  intros F C G En Eo Hv Hne.
+  destruct (setitem_effect w known ir i v k old F C G En Eo) as [w' [Hs [Hk [_ [_ [Hp1 Hp2]]]]]].
+  destruct (setitem_list_moved (kids w ir) k v old (f_nodup w known F ir) Eo Hv Hne) as [Hnd Hin].
+  exists w'. split; [exact Hs|]. split; [exact Hk|]. rewrite Hk. split; [exact Hnd|]. split; [exact Hin|].
+  split; [exact Hp1|apply Hp2; exact Hne].
+Qed.
+
+Theorem setslice_effect_moves w known ir a b vs :
+  Forest w known -> CacheInv w -> op_okb w known (OModSetSlice ir a b vs) = true ->
   let l := kids w ir in
   let lo := norm_bound a 0 (length l) in
   let hi := Z.max lo (norm_bound b (Z.of_nat (length l)) (length l)) in
-  (exists v, In v vs /\ (In v (firstn (Z.to_nat lo) l) \/ In v (skipn (Z.to_nat hi) l))) \/ ~ NoDup vs ->
-  step w (OModSetSlice ir a b vs) = Err EImpossible.
+  let victims := slice_victims l lo hi in
+  exists w', step w (OModSetSlice ir a b vs) = Ok w' /\
+    NoDup (kids w' ir) /\
+    (forall x, In x (kids w' ir) <-> In x vs \/ (In x l /\ ~ In x victims)) /\
+    (forall x, In x (kids w' ir) -> par w' x = Some ir) /\
+    (forall x, In x l -> ~ In x (kids w' ir) -> par w' x = None).
 Proof.
-  intros l lo hi H. rewrite step_setslice. cbv zeta. fold l. fold lo. fold hi.
-  match goal with |- (if ?c then _ else _) = _ => assert (Hc : c = true); [|rewrite Hc; reflexivity] end.
-  apply orb_true_iff. destruct H as [[v [Hv Hi]]|H].
-  - left. apply existsb_exists. exists v. split; [exact Hv|]. apply orb_true_iff.
-    destruct Hi as [Hi|Hi]; [left|right]; apply mem_In; exact Hi.
-  - right. apply negb_true_iff. apply Nat.eqb_neq. intro E. apply H. apply dedup_full_nodup. exact E.
+  intros F C G l lo hi victims.
+  destruct (setslice_effect w known ir a b vs F C G) as [w' [Hs [Hk [_ Hn]]]].
+  fold l in Hk, Hn. fold lo in Hk, Hn. fold hi in Hk, Hn. fold victims in Hn.
+  pose proof (good_setslice w known ir a b vs F C G) as [[F' _] _].
+  rewrite (step'_ok _ _ _ Hs) in F'. cbn [known_after] in F'.
+  assert (Hndl : NoDup l) by apply (f_nodup w known F).
+  assert (Hlo : 0 <= lo) by (apply norm_bound_nonneg; lia).
+  assert (Hle : lo <= hi) by (unfold hi; lia).
+  destruct (slice_parts l lo hi Hlo Hle Hndl) as [Hl3 Hvd]. fold victims in Hl3, Hvd.
+  assert (Hmem : forall x, In x (kids w' ir) <-> In x vs \/ (In x l /\ ~ In x victims)).
+  { intro x. rewrite Hk, In_assign_slice, Hl3. split.
+    - intros [Hi|[Hi|Hi]]; [left; exact Hi| |]; right; (split; [tauto|]); intro Hvi; destruct (Hvd x Hvi); contradiction.
+    - tauto. }
+  exists w'. split; [exact Hs|]. split; [apply (f_nodup w' known F')|]. split; [exact Hmem|]. split.
+  - intros x Hx. apply (f_two_ended w' known F'). exact Hx.
+  - intros x Hx Hnx. rewrite Hmem in Hnx.
+    assert (Hnvs : mem x vs = false) by (apply mem_false; tauto).
+    assert (Hvi : mem x victims = true).
+    { apply mem_In. destruct (in_dec Z.eq_dec x victims) as [Hi|Hi]; [exact Hi|]. exfalso. tauto. }
+    erewrite par_of_nodes; [|rewrite Hn, Hnvs, Hvi; reflexivity]. reflexivity.
 Qed.
 
 (* ---------- kids of non-IR nodes never change under the module-list operations ---------- *)
@@ -2095,9 +2388,14 @@ Print Assumptions delitem_effect_none.
 Print Assumptions delslice_effect.
 Print Assumptions setitem_effect.
 Print Assumptions setitem_effect_index.
-Print Assumptions setitem_effect_refused.
+Print Assumptions setitem_list_fresh.
+Print Assumptions setitem_list_moved.
+Print Assumptions setitem_list_moved_position.
+Print Assumptions setitem_list_moved_order.
+Print Assumptions setitem_effect_moves.
 Print Assumptions setslice_effect.
-Print Assumptions setslice_effect_refused.
+Print Assumptions setslice_list_separate.
+Print Assumptions setslice_effect_moves.
 Print Assumptions clear_effect.
 Print Assumptions reverse_effect.
 Print Assumptions setparent_none_effect.
